@@ -100,8 +100,7 @@ def extra_checks(prop, tier, seed):
     out = []
     from contracts import convergence_extra as X
     out.append(X.lean_lemma(tier))
-    if tier == "thorough":
-        out.append(X.halving_ratio(seed))
+    out.append(X.halving_ratio(seed, cases=6 if tier == "thorough" else 2))
     return out
 
 
